@@ -15,7 +15,8 @@ RULE = ("APIs from harness/gv/props/flatapi.py: main package (proto-plus), optio
         "transport-safe or keyword suffix, responses merely named Empty (own package, nested, sub-package, dependency; not void), "
         "a paged and a long-running RPC, with and without add-iam-methods and mixins. "
         "For each RPC and each of the sync and asyncio clients: the request given as message, as dict and omitted (unary) or a "
-        "stream of 0..3 messages (client-streaming), random request and reply valuations, 0..3 replies for server-streaming. "
+        "stream of 0..3 messages (client-streaming), random request and reply valuations, 0..3 replies for server-streaming; "
+        "per service one unary and one server-streaming call with 6 MiB replies through a transport built with a channel factory. "
         "One case = (API, RPC, client, spelling, request bytes, reply bytes); distinct = distinct canonical JSON of these; "
         "non-trivial = a call was issued. The asyncio legacy-IAM witness (DESIGN section 9 no. 3) runs first.")
 TRUSTED = [
@@ -459,6 +460,25 @@ class ApiRun:
                             sent = stream
                         calls.append(c)
                         meta[cid] = (i, j, variant, sp, sent, replies, consume_ok)
+            # replies beyond gRPC's 4 MiB default, through a transport that builds its channel with a caller-supplied channel
+            # FACTORY (channel=<callable>): the factory must be handed the unlimited message-size options
+            BIG = 6 * 1024 * 1024
+            for want_ss in (False, True):
+                pick = next((jj for jj, mm in enumerate(s.method) if not mm.client_streaming and mm.server_streaming == want_ss
+                             and mm.output_type not in (U.EMPTY, OPERATION) and not is_paged(self.idx, mm)
+                             and sum(1 for x in s.method if U.snake(x.name) == U.snake(mm.name)) == 1
+                             and any(f.name == "name" and f.type == F.TYPE_STRING and f.label != F.LABEL_REPEATED
+                                     for f in self.idx.msgs[mm.output_type][0].field)), None)
+                if pick is None:
+                    continue
+                mm = s.method[pick]
+                for variant, client, tr in (("Sync", s.name + "Client", "grpc"), ("Async", s.name + "AsyncClient", "grpc_asyncio")):
+                    cid = f"{i}/big/{variant}/{pick}"
+                    calls.append({"id": cid, "service_module": U.snake(s.name), "client": client, "transport": tr,
+                                  "method": self.client_method_name(i, pick), "channel": "factory", "deadline": 30.0, "timeout": 40,
+                                  "consume": "stream" if want_ss else "value", "big_count": 2 if want_ss else 1,
+                                  "big_reply": {"cls": self.cls_path(vm, mm.output_type), "field": "name", "size": BIG}})
+                    meta[cid] = (i, pick, variant, "big_reply", BIG, 2 if want_ss else 1)
             # legacy IAM / mixin methods: which entry they reach
             extra = []
             if self.add_iam:
@@ -496,6 +516,9 @@ class ApiRun:
                 continue
             if mt[3] == "legacy_iam":
                 self.judge_iam(cid, o, mt)
+                continue
+            if mt[3] == "big_reply":
+                self.judge_big(cid, o, mt)
                 continue
             i, j, variant, sp, sent, replies, consume_ok = mt
             fp, s = self.svcs[i]
@@ -605,6 +628,30 @@ class ApiRun:
             if back != replies:
                 ctx.violation(f"{s.name}.{m.name} ({variant}, {sp}): returned/streamed value differs from what the server sent "
                               f"({len(back)} vs {len(replies)} messages)", dict(case, returned_b64=[U.b64(x) for x in back]), known)
+
+    def judge_big(self, cid, o, mt):
+        ctx = self.ctx
+        i, j, variant, _, size, count = mt
+        fp, s = self.svcs[i]
+        m = s.method[j]
+        case = dict(self.case, service=s.name, method=m.name, variant=variant, spelling="channel-factory, %d replies of %d bytes" % (count, size))
+        ctx.case({"api": self.h, "method": m.name, "variant": variant, "big_reply": size, "count": count}, nontrivial=True,
+                 feature=[variant, "channel-factory", "reply>4MiB", "arity=" + ("server-streaming" if m.server_streaming else "unary")])
+        want_path = f"/{fp.package}.{s.name}/{m.name}"
+        if not o["ok"]:
+            e = o["error"]
+            ctx.violation(f"{s.name}.{m.name} ({variant}, transport given a channel factory): a reply of {size} bytes was not delivered: "
+                          f"{e['exception']}: {clean(e['message'])[:200]}", case)
+            return
+        r = o["result"]
+        if len(o["calls"]) != 1 or o["calls"][0]["path"] != want_path:
+            ctx.violation(f"{s.name}.{m.name} ({variant}, channel factory): calls {[c['path'] for c in o['calls']]} instead of one to {want_path}", case)
+        elif r.get("kind") != "big" or r["n"] != count or any(l != size for l in r["lengths"]) or not r["all_x"]:
+            ctx.violation(f"{s.name}.{m.name} ({variant}, channel factory): returned {r.get('n')} values with lengths {r.get('lengths')} "
+                          f"instead of {count} replies of {size} bytes", case)
+        opts = (o.get("factory") or {}).get("options")
+        self.checks.append((f"T2 {self.tag}.{m.name} {variant}: the channel factory is called once with the transport's host and options",
+                            coq.b(opts is not None)))
 
     def judge_iam(self, cid, o, mt):
         ctx = self.ctx
